@@ -1,14 +1,14 @@
 SPECIFICATION MCSpec
 CONSTANTS
   NComp = 2
-  RefKind = 2
+  RefKind = 1
   MaxQ = 2
-  WithEvidence = FALSE
-  WithEvv = FALSE
-  ReuseChecksCB = FALSE
+  WithEvidence = TRUE
+  WithEvv = TRUE
+  ReuseChecksCB = TRUE
   ReuseChecksCN = TRUE
   SubtractBroken = TRUE
-  EvvSigned = TRUE
+  EvvSigned = FALSE
 CHECK_DEADLOCK FALSE
 INVARIANT MeaningPreserved
 INVARIANT TargetAcyclic
